@@ -15,7 +15,7 @@ left recursion, node balance problems, child-kind multisets and first tokens per
 import sys
 from collections import defaultdict
 
-from .facts import op_local, op_place, op_const
+from .facts import op_local, op_place, op_const, Body
 from . import paths, cfg as cfgmod
 
 TOKENKIND = "syntax::token_kind::TokenKind"
@@ -209,14 +209,50 @@ class ParserAI:
         return frozenset(k for k, v in vt.items() if v == {("const", "true")})
 
     def _pp_consumed(self):
+        """token kinds the preprocessor never hands on: kinds for which no path of next_token returns the eaten
+        token itself (a guarded arm that falls through to `kind => kind` hands the kind on)."""
         pb = self.prog.body("syntax::preprocessor::PreProcessor::<T>::next_token")
-        out = set()
-        if pb is not None:
-            for i, bb in enumerate(pb.blocks):
-                t = bb["term"]
-                if t["k"] == "switch" and paths.switch_cond(pb, self.prog, i).kind == "discr":
-                    out |= {self.tk_by_discr[a[0]] for a in t["arms"]}
-        return frozenset(out)
+        if pb is None:
+            return frozenset()
+        eat_dest = None
+        for i, t in pb.calls():
+            if (Body.callee(t) or "").endswith("TokenStream>::eat") or (t["f"].get("decl") or "").endswith("TokenStream::eat"):
+                if not t["dest"]["p"]:
+                    eat_dest = t["dest"]["l"]
+        named = set()
+        passed = set()
+        for p in paths.enum_paths(pb, self.prog):
+            if p.end != "return":
+                continue
+            chosen = None
+            excluded = set()
+            for e in p.events:
+                if e[0] == "branch" and e[2].kind == "discr":
+                    if isinstance(e[3], tuple):
+                        excluded |= set(e[3][1])
+                    else:
+                        chosen = e[3]
+            through = False
+            alias = {}
+            for e in p.events:
+                if e[0] == "assign" and not e[2]["a"]["p"]:
+                    u = e[2]["rv"].get("use") if isinstance(e[2]["rv"], dict) else None
+                    src = None
+                    if isinstance(u, dict):
+                        for k in ("copy", "move"):
+                            if k in u and not u[k]["p"]:
+                                src = u[k]["l"]
+                    if src is not None:
+                        alias[e[2]["a"]["l"]] = alias.get(src, src)
+                    else:
+                        alias.pop(e[2]["a"]["l"], None)
+            if p.ret and p.ret[0] == "rv" and alias.get(0) == eat_dest:
+                through = True
+            if chosen is not None:
+                named.add(chosen)
+                if through:
+                    passed.add(chosen)
+        return frozenset(self.tk_by_discr[d] for d in named - passed if d in self.tk_by_discr)
 
     def cadd_k(self, counts, kn):
         counts = cadd(counts, kn)
